@@ -142,6 +142,8 @@ type Gen struct {
 	sideFailed  bool
 	modelVars   []string
 	specTypes   map[string]types.Type
+	splitCallee string
+	splitVal    string
 }
 
 func newGen(cs *ContractSet, fn *ssa.Function, c *Contract, wrapMode bool) *Gen {
